@@ -109,30 +109,56 @@ func showSendResult(resp interface{}, err error) string {
 	return "err"
 }
 
+// replyShape: the combination of batch count, item count, operation, status and payload presence of a reply
+type replyShape struct {
+	count, items int
+	otherOp      bool
+	status       int
+	payload      bool
+	damage       bool
+}
+
+// every combination of batch count {0,1,2,3}, item count {1,2,3}, operation {same, other}, status {0..3}, payload {present, absent}
+func allReplyShapes() []replyShape {
+	var out []replyShape
+	for _, count := range []int{1, 0, 2, 3} {
+		for _, items := range []int{1, 2, 3} {
+			for _, other := range []bool{false, true} {
+				for status := 0; status < 4; status++ {
+					for _, pl := range []bool{true, false} {
+						out = append(out, replyShape{count: count, items: items, otherOp: other, status: status, payload: pl})
+					}
+				}
+			}
+		}
+	}
+	return out
+}
+
+func randomReplyShape(r *rand.Rand) replyShape {
+	nitems := []int{1, 1, 1, 1, 1, 1, 1, 1, 2, 3}[r.Intn(10)]
+	return replyShape{count: []int{1, 1, 1, 1, 1, 1, 1, 1, 0, 2, nitems, nitems}[r.Intn(12)], items: nitems, otherOp: r.Intn(10) == 0,
+		status: []int{0, 0, 0, 0, 0, 1, 1, 2, 3}[r.Intn(9)], payload: r.Intn(6) != 0, damage: true}
+}
+
 // genReply builds a reply: a response message with the given shape, possibly damaged
-func genReply(r *rand.Rand, g *gen, op kmip.Enum) []byte {
+func genReply(r *rand.Rand, g *gen, op kmip.Enum, sh replyShape) []byte {
 	resp := kmip.Response{}
 	resp.Header.Version = kmip.ProtocolVersion{Major: 1, Minor: 4}
 	resp.Header.TimeStamp = time.Unix(1000, 0)
-	nitems := []int{1, 1, 1, 1, 1, 1, 1, 1, 0, 2}[r.Intn(10)]
-	resp.Header.BatchCount = int32([]int{1, 1, 1, 1, 1, 1, 1, 1, 0, 2, nitems, nitems}[r.Intn(12)])
+	nitems := sh.items
+	resp.Header.BatchCount = int32(sh.count)
 	for i := 0; i < nitems; i++ {
 		it := kmip.ResponseBatchItem{Operation: op}
-		if r.Intn(10) == 0 {
+		if sh.otherOp {
 			it.Operation = respOps[r.Intn(len(respOps))]
 		}
-		it.ResultStatus = kmip.Enum([]int{0, 0, 0, 0, 0, 1, 1, 2, 3}[r.Intn(9)])
+		it.ResultStatus = kmip.Enum(sh.status)
 		if it.ResultStatus != 0 || r.Intn(6) == 0 {
 			it.ResultReason = kmip.Enum(1 + r.Intn(24))
 			it.ResultMessage = "failed: " + string(g.bytesv())
 		}
-		switch r.Intn(6) {
-		case 0: // absent payload
-		case 1: // another operation's payload (still decodable only if it matches the item's operation)
-			if tn, ok := specResponsePayload[it.Operation]; ok {
-				it.ResponsePayload = g.maybePtr(g.structOf(tn))
-			}
-		default:
+		if sh.payload {
 			if tn, ok := specResponsePayload[it.Operation]; ok {
 				it.ResponsePayload = g.maybePtr(g.structOf(tn))
 			}
@@ -142,13 +168,12 @@ func genReply(r *rand.Rand, g *gen, op kmip.Enum) []byte {
 		}
 		resp.BatchItems = append(resp.BatchItems, it)
 	}
-	if nitems == 0 {
-		// an empty required slice cannot be produced by the encoder; drop to a hand-made message
-		resp.BatchItems = []kmip.ResponseBatchItem{{Operation: op}}
-	}
 	_, b := implEncode(&resp)
 	if b == nil {
 		return randomBytes(r)
+	}
+	if !sh.damage {
+		return b
 	}
 	switch r.Intn(24) {
 	case 0:
@@ -186,8 +211,13 @@ func suiteClient(args []string) {
 		}
 	}
 	g := &gen{r: r, wf: true}
-	for i := 0; i < *n; i++ {
+	shapes := allReplyShapes()
+	total := *n + len(shapes)
+	for i := 0; i < total; i++ {
 		op := reqOps[r.Intn(len(reqOps))]
+		if _, ok := specResponsePayload[op]; !ok {
+			op = kmip.OPERATION_GET
+		}
 		var payload interface{}
 		dv := i%4 == 0
 		var offer []kmip.ProtocolVersion
@@ -200,7 +230,12 @@ func suiteClient(args []string) {
 		default:
 			payload = g.maybePtr(g.structOf(specRequestPayload[op]))
 		}
-		reply := genReply(r, g, op)
+		var reply []byte
+		if i < len(shapes) {
+			reply = genReply(r, g, op, shapes[i])
+		} else {
+			reply = genReply(r, g, op, randomReplyShape(r))
+		}
 		connected := i%17 != 5
 		ver := kmip.ProtocolVersion{Major: 1, Minor: int32(r.Intn(5))}
 		if i%5 == 0 {
